@@ -47,7 +47,7 @@ def config_strategy():
             # (Hypothesis draws small integers far more often: the second branch spreads the same range evenly)
             # and about 40 % of Hypothesis' examples repeat an earlier prefix with an all-simplest tail: the simplest key
             # length is therefore a long one, not 2)
-            "keylen": st.one_of(st.sampled_from([200, 143, 129, 256, 255, 128, 64, 32, 31, 16, 15, 4, 3, 2]), st.integers(0, 254).map(lambda n: 2 + (n * 97 + 198) % 255), st.integers(2, 256)),
+            "keylen": st.one_of(st.sampled_from([200, 143, 129, 256, 255, 128, 64, 32, 31, 16, 15, 4, 3, 2]), st.sampled_from([2, 3, 4, 5, 255, 256]), st.integers(0, 254).map(lambda n: 2 + (n * 97 + 198) % 255), st.integers(2, 256)),
             "key_printable": st.booleans(),
             # request a tie for first place between the padding block and a repeated block; "long_key" also moves the key
             # length to 129-256 (no multiple of it is searched, so nothing else can break the tie) and drops faults
